@@ -24,6 +24,11 @@ def rejected(prop, files, requests, why):
         for f, t in files.items():
             pr.write(f, t)
         pr.write("precious_output.txt", "x")
+        # state and outputs left by an earlier, successful run of a (then valid) project: a refused run deletes none of it
+        for d in sorted(set(os.path.dirname(f) for f in files)):
+            pr.write(os.path.join(d, ".zinoma/earlier.checksums"), "state", record=False)
+            pr.write(os.path.join(d, "o.txt"), "output of an earlier run", record=False)
+            pr.write(os.path.join(d, "p.txt"), "output of an earlier run", record=False)
         before = _snapshot(pr.root)
         for args in requests:
             verdicts = []
@@ -43,6 +48,17 @@ def rejected(prop, files, requests, why):
             if gone:
                 return {"property": prop, "expected": "%s: nothing is deleted" % why, "observed": "deleted %s" % sorted(gone)}
         return None
+    return fn
+
+
+def rejected_in(prop, files, cwd, requests, why):
+    """like `rejected`, with zinoma started in the sub-directory `cwd` of the scratch tree"""
+    inner = rejected(prop, files, requests, why)
+
+    def fn(pr):
+        orig = pr.run
+        pr.run = lambda *a, **k: orig(*a, **dict(k, cwd=pr.path(cwd)))
+        return inner(pr)
     return fn
 
 
@@ -113,6 +129,15 @@ def cases(seed, tier="quick"):
     ]
     for (n, files, why) in rej14:
         out.append(C("c14-" + n, rejected("C14", files, [["a"], ["--clean"]], why), why))
+    # the same defects in a project imported from outside the root project's tree (sibling directory)
+    ok_app = "name: app\nimports:\n  lib: ../lib\ntargets:\n  a:\n    dependencies: [lib::l]\n    build: echo hi >> \"$ZLOG\"\n"
+    for (n, libyml, why) in (("unknown-key", "name: lib\ntargets:\n  l:\n    build: echo l >> \"$ZLOG\"\n    colour: blue\n", "an unknown key"), ("two-kinds", "name: lib\ntargets:\n  l:\n    build: echo l >> \"$ZLOG\"\n    service: sleep 1\n", "a target that is both build and service"), ("bad-target-name", "name: lib\ntargets:\n  l:\n    build: echo l >> \"$ZLOG\"\n  b d:\n    build: echo l >> \"$ZLOG\"\n", "an invalid target name"), ("bad-project-name", "name: li b\ntargets:\n  l:\n    build: echo l >> \"$ZLOG\"\n", "an invalid project name"), ("not-yaml", "targets: [\n", "a file that is not YAML"), ("missing-file", None, "a missing zinoma.yml")):
+        files = {"app/zinoma.yml": ok_app}
+        if libyml is not None:
+            files["lib/zinoma.yml"] = libyml
+        else:
+            files["lib/readme"] = "no project file here"
+        out.append(C("c14-sibling-import-" + n, rejected_in("C14", files, "app", [["a"], ["--clean"]], "%s in a project imported from a sibling directory" % why), why))
     cyc = {"zinoma.yml": yml({"a": B("a", dependencies=["sub::s"])}, name="root", imports={"sub": "sub"}), "sub/zinoma.yml": yml({"s": B("s", dependencies=["root::leaf"])}, name="sub", imports={"root": ".."})}
     cyc["zinoma.yml"] = yml({"a": B("a", dependencies=["sub::s"]), "leaf": B("leaf")}, name="root", imports={"sub": "sub"})
     out.append(C("c14-import-cycle-ok", accepted_runs("C14", cyc, ["a"], ["a", "s", "leaf"], "projects importing each other are loaded once each"), "import cycle is not an error and never a crash"))
